@@ -57,8 +57,8 @@ class StaleHandler(logging.Handler):
 class Session:
     SRC = ("127.0.0.9", 4242)
 
-    def __init__(self, trx_defs=(), bts_port=5700, bb_port=6700):
-        """trx_defs: list of (addr, port, idx) additional --trx definitions"""
+    def __init__(self, trx_defs=(), bts_port=5700, bb_port=6700, bts_addr=None, bb_addr=None):
+        """trx_defs: list of (addr, port, idx) additional --trx definitions; bts_addr / bb_addr: -R / -r (peers of BTS and MS)"""
         common.import_toolkit()
         self.FS = fakesock.install()
         import clck_gen
@@ -90,6 +90,10 @@ class Session:
         self._orig_time = ctrl_if.time
         ctrl_if.time = _Time
         argv = ["fake_trx", "--log-level", "CRITICAL", "-P", str(bts_port), "-p", str(bb_port)]
+        if bts_addr is not None:
+            argv += ["-R", bts_addr]
+        if bb_addr is not None:
+            argv += ["-r", bb_addr]
         for addr, port, idx in trx_defs:
             argv += ["--trx", "%s:%d/%d" % (addr, port, idx)]
         old_argv, old_print = sys.argv, builtins.print
